@@ -44,6 +44,11 @@ def main():
     hostnames = [f"r{pid}h{i}" for i in range(spec["hosts"])]
 
     def launch(i):
+        # executors and everything they spawn write to /dev/null: a helper that never exits must not keep the result
+        # pipe of this run open
+        dn = os.open(os.devnull, os.O_WRONLY)
+        os.dup2(dn, 1)
+        os.dup2(dn, 2)
         ex = Executor(job, ctrl, spec["workers"], hostnames[i], base + 1 + i * 10)
         ex.register()
         ex.recv_loop()
@@ -84,7 +89,15 @@ def main():
     for p in procs:
         if p.is_alive():
             p.kill()
-    os._exit(0)
+    # this run is the leader of its own session: take every remaining descendant (workers, data and shm servers) down
+    signal.signal(signal.SIGTERM, signal.SIG_IGN)
+    try:
+        os.killpg(os.getpgid(0), signal.SIGTERM)
+        time.sleep(0.3)
+    except OSError:
+        pass
+    sys.stdout.flush()
+    os.killpg(os.getpgid(0), signal.SIGKILL)
 
 
 if __name__ == "__main__":
